@@ -22,7 +22,7 @@ from sim.world import Run
 
 ID = "C19"
 LEVEL = "exploration"
-RUNS = {"quick": 12000, "thorough": 200000}
+RUNS = {"quick": 12000, "thorough": 1200000}
 BUDGET = {"quick": 100.0, "thorough": 3300.0}
 RULE = ("run i = 10 telegrams sent by a real node to keyed addresses (APDU lengths cycling 2..240 by index, "
         "write/response/read, random keys/addresses/counters) + 10 direct init_from_plain_apdu calls over address types, "
